@@ -147,6 +147,12 @@ package ledger
 //@   property C06
 //@   ensures no_direct_writes: kvDirect == old(kvDirect) && kvWrites == old(kvWrites)
 //@   at Batch.Delete assert into_the_callers_batch: recv == batch
+// Every block whose record is deleted also leaves both caches - the block walked to in this
+// round of the loop, not just the branch tip the walk started from.
+//@   local fromBlock *xldgpb.InternalBlock
+//@   at LRUCache.Del#1 assert [C05] removed_block_leaves_the_header_cache: recv == l.blkHeaderCache && $0 == boxed(str(fromBlock.Blockid))
+//@   at LRUCache.Del#2 assert [C05] removed_block_leaves_the_block_cache: recv == l.blockCache && $0 == boxed(str(fromBlock.Blockid))
+//@   at Batch.Delete#1 assert [C05] the_record_of_that_block_is_deleted: str($0) == xldgpb.BlocksTablePrefix + str(fromBlock.Blockid)
 //@   loop 1 invariant nothing_written_yet: kvDirect == old(kvDirect) && kvWrites == old(kvWrites)
 
 // A truncation is one batch holding the removed blocks, the new tip's header and the
